@@ -81,7 +81,7 @@ func genC14(r *Rng, tier string) *Plan {
 			} else if r.Bool() {
 				other = Pick(r, []string{"P-521", "brainpoolP512r1", "P-224"})
 			}
-			fp := ForeignParams{Parts: "csr", KeyAlg: other, Str: Pick(r, []string{"utf8", "printable", "ia5"})}
+			fp := ForeignParams{Parts: "csr", KeyAlg: other, Str: Pick(r, []string{"utf8", "printable", "ia5"}), CsrSig: Pick(r, []string{"", "", "sha224", "md5", "sha3-256"})}
 			g.P.Add(Op{K: "replace-art", Ent: e.ID, Arg: fp.JSON(), Label: "foreign-request:" + other})
 			g.Csr[e.ID] = true
 		}
